@@ -75,8 +75,42 @@ def collBuildEncapsulated : Nat → LState → Option (List Nat) → List Bytes 
     | (some (.ok (.tok .sequenceEnd)), s') => .ok (ot.getD [], fr, s')
     | (some (.ok _), _) => .error .unexpectedToken
 
+/-- the tag an element-level token announces (what the stop rule is applied to) -/
+def tokTag : Token → Option Tag
+  | .pixelSequenceStart => some Tag.pixelData
+  | .elementHeader h => some h.tag
+  | .sequenceStart tag _ => some tag
+  | _ => none
+
 mutual
-/-- `collect_elements` -/
+/-- one element of `collect_elements`, after its first token `tok` was peeked (and passed the stop rule) -/
+def collectOne : Nat → Token → Coll → Except CErr (Elem × Coll)
+  | 0, _, _ => .error .fuel
+  | fuel + 1, tok, c =>
+    match tok with
+    | .pixelSequenceStart =>
+      let rd2 := c.rd.advance.2
+      match collBuildEncapsulated fuel rd2 none [] true with
+      | .ok (ot, fr, rd3) => .ok (.pix ot fr, ⟨rd3, .inPixelData⟩)
+      | .error e => .error e
+    | .elementHeader h =>
+      let rd2 := c.rd.advance.2
+      match rd2.advance with
+      | (none, _) => .error .missingValue
+      | (some (.error e), _) => .error (.read e)
+      | (some (.ok (.lazyValue h')), rd3) =>
+        match rd3.dec.readValuePreserved h' with
+        | .ok (v, d) => .ok (.prim h.tag h.vr h.len v, ⟨{ rd3 with dec := d }, .inDataset⟩)
+        | .error e => .error (.value e)
+      | (some (.ok (.lazyItemValue _)), _) => .error .unexpectedToken   -- `into_value` refuses an item value
+      | (some (.ok (.tok _)), _) => .error .unexpectedToken
+    | .sequenceStart tag len =>
+      let rd2 := c.rd.advance.2
+      match collectSequence fuel ⟨rd2, .inDataset⟩ [] with
+      | .ok (items, c3) => .ok (.seq tag len (itemsOfList items), c3)
+      | .error e => .error e
+    | _ => .error .unexpectedToken
+/-- `collect_elements`: peek; end of item; stop rule; one element; again -/
 def collectElements : Nat → Bool → Option Tag → Option Tag → Coll → List Elem → Except CErr (List Elem × Coll)
   | 0, _, _, _, _, _ => .error .fuel
   | fuel + 1, inItem, ru, rt, c, acc =>
@@ -84,34 +118,16 @@ def collectElements : Nat → Bool → Option Tag → Option Tag → Coll → Li
     | (.error e, _) => .error (.read e)
     | (.ok none, rd1) => .ok (acc, { c with rd := rd1 })
     | (.ok (some tok), rd1) =>
-      match tok with
-      | .pixelSequenceStart =>
-        if stopAt ru rt Tag.pixelData then .ok (acc, { c with rd := rd1 }) else
-        let rd2 := rd1.advance.2
-        match collBuildEncapsulated fuel rd2 none [] true with
-        | .ok (ot, fr, rd3) => collectElements fuel inItem ru rt ⟨rd3, .inPixelData⟩ (acc ++ [.pix ot fr])
-        | .error e => .error e
-      | .elementHeader h =>
-        if stopAt ru rt h.tag then .ok (acc, { c with rd := rd1 }) else
-        let rd2 := rd1.advance.2
-        match rd2.advance with
-        | (none, _) => .error .missingValue
-        | (some (.error e), _) => .error (.read e)
-        | (some (.ok (.lazyValue h')), rd3) =>
-          match rd3.dec.readValuePreserved h' with
-          | .ok (v, d) => collectElements fuel inItem ru rt ⟨{ rd3 with dec := d }, .inDataset⟩ (acc ++ [.prim h.tag h.vr h.len v])
-          | .error e => .error (.value e)
-        | (some (.ok (.lazyItemValue _)), _) => .error .unexpectedToken   -- `into_value` refuses an item value
-        | (some (.ok (.tok _)), _) => .error .unexpectedToken
-      | .sequenceStart tag len =>
+      if tok = .itemEnd then
+        (if inItem then .ok (acc, { c with rd := rd1.advance.2 }) else .error .unexpectedToken)
+      else
+      match tokTag tok with
+      | none => .error .unexpectedToken
+      | some tag =>
         if stopAt ru rt tag then .ok (acc, { c with rd := rd1 }) else
-        let rd2 := rd1.advance.2
-        match collectSequence fuel ⟨rd2, .inDataset⟩ [] with
-        | .ok (items, c3) => collectElements fuel inItem ru rt c3 (acc ++ [.seq tag len (itemsOfList items)])
+        match collectOne fuel tok { c with rd := rd1 } with
+        | .ok (e, c') => collectElements fuel inItem ru rt c' (acc ++ [e])
         | .error e => .error e
-      | .itemEnd =>
-        if inItem then .ok (acc, { c with rd := rd1.advance.2 }) else .error .unexpectedToken
-      | _ => .error .unexpectedToken
 /-- `collect_sequence`; every item is an object (`collect_to_object` = elements inserted into a new object) -/
 def collectSequence : Nat → Coll → List (Nat × Elems) → Except CErr (List (Nat × Elems) × Coll)
   | 0, _, _ => .error .fuel
@@ -119,11 +135,10 @@ def collectSequence : Nat → Coll → List (Nat × Elems) → Except CErr (List
     match c.rd.advance with
     | (none, _) => .error .prematureEnd
     | (some (.error e), _) => .error (.read e)
-    | (some (.ok (.tok (.itemStart len))), rd1) =>
+    | (some (.ok (.tok (.itemStart _))), rd1) =>
       match collectElements fuel true none none { c with rd := rd1 } [] with
       | .ok (es, c2) =>
         -- `new_empty_with_dict` + `extend`: the recorded item length is lost (undefined)
-        let _ := len
         collectSequence fuel c2 (acc ++ [(undefinedLen, elemsOfList (objectOf es))])
       | .error e => .error e
     | (some (.ok (.tok .sequenceEnd)), rd1) => .ok (acc, { c with rd := rd1 })
